@@ -161,7 +161,11 @@ func (r *renderer) Render(w io.Writer, source []byte, n ast.Node) error {
 	err := ast.Walk(n, func(n ast.Node, entering bool) (ast.WalkStatus, error) {
 		s := ast.WalkStatus(ast.WalkContinue)
 		var err error
-		f := r.nodeRendererFuncs[n.Kind()]
+		// a kind created after the renderer was initialized has no entry at all
+		var f NodeRendererFunc
+		if kind := int(n.Kind()); kind < len(r.nodeRendererFuncs) {
+			f = r.nodeRendererFuncs[kind]
+		}
 		if f != nil {
 			s, err = f(writer, source, n, entering)
 		}
